@@ -563,6 +563,7 @@ def gen_restart(rng, cfg, w: World, opid, invalid, steer):
     op = {"id": opid, "k": "restart", "slot": si}
     via = cfg.get("restart_via") or rng.choice(["file", "file", "dict"])
     op["via"] = via
+    op["mapper_style"] = rng.choice(["inplace_ret", "inplace_none", "new"])
     if via == "dict":
         op["json"] = rng.random() < 0.5
         op["with_mapper"] = rng.random() < 0.3
